@@ -232,6 +232,18 @@ impl Property for C05Prop {
                 };
                 stats.eval();
                 stats.label(if first.starts_with("accepted") { "program accepted" } else { "program rejected" });
+                if first.starts_with("rejected") {
+                    // two parses of a rejected program give errors that are equal for the host too (and
+                    // render alike up to the order in which union members and struct fields are printed)
+                    let interp = exec::safe_interpreter();
+                    let errors: Vec<simplesl::Error> = (0..3).filter_map(|_| run::guarded(|| simplesl::Code::parse(&interp, &text)).ok().and_then(|r| r.err())).collect();
+                    stats.evals(3);
+                    for e in errors.iter().skip(1) {
+                        if *e != errors[0] {
+                            return fail("C05:program:error-equality", format!("`{text}`: two parses are rejected with errors that are not equal to each other: `{}` / `{e}`", errors[0]));
+                        }
+                    }
+                }
                 for r in 1..reps {
                     let t = text.clone();
                     let again = on_fresh_thread(move || outcome_of(&t));
@@ -490,7 +502,11 @@ fn matrix_call(x: usize, t: usize, v: usize) -> String {
 /// programs whose outcome hangs on process-wide or thread-wide state if anything does: empty sums and
 /// products (the helper is chosen among lazily built types), structs built at run time and tested by
 /// type (their types are recomputed per value), defaults of union types
-const STATEFUL: [&str; 22] = [
+const STATEFUL: [&str; 25] = [
+    // wide struct types tested one after the other (what a test answers is not remembered by address)
+    "kind := (s: any) -> int { return match s { v: struct{x: int, y: int, w: int, h: int} => 1, => 0, }; }; (kind(struct{x := 1, y := 2, w := 3, h := 4}), kind(struct{x := \"a\", y := 2, w := 3, h := 4}), kind(struct{x := 1, y := 2, w := 3, h := 4}), kind(struct{x := 1.5, y := 2, w := 3, h := 4}), kind(struct{x := 1, y := 2, w := 3}))",
+    "r := mut [int] []; for v in [struct{a := 1, b := 2, c := 3, d := 4, e := 5}, struct{a := \"s\", b := 2, c := 3, d := 4, e := 5}, struct{a := 1, b := 2, c := 3, d := 4, e := 5}, struct{a := 1, b := 2, c := 3, d := 4}]~ { r += [if q: struct{a: int, b: int, c: int, d: int, e: int} = v { 1 } else { 0 }]; }; *r",
+    "m := mod { a := 1; b := 2.5; c := \"s\"; d := [1]; }; n := mod { a := \"x\"; b := 2.5; c := \"s\"; d := [1]; }; t := (x: any) -> int { return if q: struct{a: int, b: float, c: string, d: [int]} = x { 1 } else { 0 }; }; (t(m), t(n), t(m), t(n))",
     // fillers that are cells, written to (a filler is made for the iterator that yields it)
     "it := [mut 5]~; it(); f := it().1; f += 7; *f",
     "it := [mut 5]~; it(); f := it().1; g := it().1; f += 7; (*f, *g, f == g)",
